@@ -15,6 +15,13 @@ class AnalysisError(Exception):
     instance count below its floor).  Never a verdict on the repository."""
 
 
+class Undecided(AnalysisError):
+    """A rule could not be evaluated on this tree because the code uses a construct outside the analyser's evaluable
+    subset (its interpreters know a part of Python and of the standard library).  Unlike a vanished anchor this is not
+    fail-closed: the rule function is skipped, listed as UNDECIDED in the output and in the evidence, and the rest of the
+    check is still decided."""
+
+
 def repo_root() -> str:
     return os.environ.get("SA_REPO", "/repo")
 
